@@ -12,8 +12,12 @@
   (`TtlDoc.Cont`; a frame additionally holds the one `*cursorio.TextOffsetRange` its Go closure
   captures: `blankNodeRange`, `cursor`, `valueRange`, `openSubjectRange`), explicit panic outcomes,
   flag `trig`.  The token producers are those of `Model/TurtleOffsets.lean` (`TtlO`, repaired code:
-  `legacy = false`, `labelOnly = false`).  `Props/C16TtlDocO.lean` proves that forgetting sizes, writer
-  and ranges gives exactly `TtlDoc.run` (erasure).
+  `legacy = false`, `labelOnly = false`).  `Props/C16TtlDocO.lean` proves: forgetting sizes, writer and
+  ranges gives exactly `TtlDoc.run` (erasure); commit discipline after any number of `Next()` calls; every
+  reported range inside the document; every error offset inside the document.  The driver runs this
+  model (op `ttlo.dec`, Driver/TtlDocO.lean); go/cmd/c16d compares it with both Go packages (T3);
+  `Props/C16TtlDocOSites.lean` ties the number of commit / hand-back / error-offset call sites per Go
+  function (T2).
 
   Commit sites of the statement layer (every `commit(` / `commitForTextOffsetRange(` outside the
   producers; checked against the sources side by side):
@@ -30,7 +34,8 @@
   Hand-backs (`BacktrackRunes`): a rune handed back is modelled as not read (`bo` unchanged); where Go
   hands a rune back and THEN computes a capture-off error offset with that rune as `readIgnored`
   (TriG `reader_scan_triples_End`, `reader_scan_wrappedGraph(_End)`, `…_Required`, the `.`-not-followed-
-  by-a-digit object) the rune's size is subtracted twice, as in Go.
+  by-a-digit object) the rune's size is subtracted twice with `CfgO.dbl = true`, as in Go before patch c16d-1
+  (defect D45); `dbl = false` is the repaired code: nothing is subtracted at these sites.
 
   A scan function is called with `ArgO.rune c rest` and the state BEFORE `c` was read (`s.read c` is
   the state Go is in when the function starts), or with `ArgO.fail`.
@@ -113,6 +118,11 @@ structure CfgO where
   resolve : Option (List Nat) → List Nat → Option (List Nat)
   isSpace : Nat → Bool
   pnBase : Nat → Bool
+  /-- `true` = before patch c16d-1 (defect D45): the seven sites that hand the offending rune back to the
+      buffer and THEN pass it as `readIgnored` subtract its size twice from the capture-off byte offset
+      (short by the rune's size; negative in Go, truncated at 0 here, when the rune is larger than what
+      precedes it). `false` = the repaired code: nothing is subtracted at these sites. -/
+  dbl : Bool := false
 
 /-- The configuration of the base machine this one refines. -/
 def CfgO.base (C : CfgO) : Cfg :=
@@ -267,10 +277,10 @@ def withSelfO (x : EctxO) : FnResO → FnResO
   | r => r
 
 /-- `reader_scan_wrappedGraph`. -/
-def stepWrappedGraphO (e : End) (x : EctxO) (env : Env) (s : S) : ArgO → FnResO
+def stepWrappedGraphO (dbl : Bool) (e : End) (x : EctxO) (env : Env) (s : S) : ArgO → FnResO
   | .fail => .err (endCls e) .none
   | .rune c rest =>
-    if c.1 ≠ 0x7b then .err .syntax (s.offErr [] c.2)         -- BacktrackRunes(r0) first
+    if c.1 ≠ 0x7b then .err .syntax (s.offErr [] (if dbl then c.2 else 0))   -- BacktrackRunes(r0) first
     else .ok { cur := some ⟨x, .triplesBlock, none⟩, push := [⟨x, .wrappedGraphEnd, none⟩], inp := rest, env := env,
                s := (s.read c).commit [c] }
 
@@ -347,7 +357,7 @@ def stepStatementRuneO (C : CfgO) (e : End) (x : EctxO) (env : Env) (s : S) (c :
   else if c.1 = 0x42 ∨ c.1 = 0x62 then stepKwBaseO C e x env s c rest
   else if c.1 = 0x50 ∨ c.1 = 0x70 then stepKwSpaceO C e x env s (kwCI "REFIX") .sparqlPrefixNS c rest
   else if C.trig ∧ (c.1 = 0x47 ∨ c.1 = 0x67) then stepKwSpaceO C e x env s (kwCI "RAPH") .graphLabel c rest
-  else if C.trig ∧ c.1 = 0x7b then stepWrappedGraphO e x env s (.rune c rest)
+  else if C.trig ∧ c.1 = 0x7b then stepWrappedGraphO C.dbl e x env s (.rune c rest)
   else stepSubjectStartO C e x env s c rest
 
 /-- `reader_scan_collection(r, ectx, r0, openSubject, openSubjectRange)`. -/
@@ -447,7 +457,7 @@ def stepObjectO (C : CfgO) (e : End) (x : EctxO) (env : Env) (s : S) (c : RP) (r
       match rest with
       | [] => .err (endCls e) (s1.offErr [c] 0)
       | r1 :: _ =>
-        if r1.1 < 0x30 ∨ r1.1 > 0x39 then .err .syntax (s.offErr [] c.2)       -- BacktrackRunes(r0, r1) first
+        if r1.1 < 0x30 ∨ r1.1 > 0x39 then .err .syntax (s.offErr [] (if C.dbl then c.2 else 0))  -- BacktrackRunes(r0, r1) first
         else emitOfNumericO x env (TtlO.produceNumericLiteral e s (c :: rest))
     else emitOfNumericO x env (TtlO.produceNumericLiteral e s (c :: rest))
   else if c.1 = 0x74 ∨ c.1 = 0x66 then
@@ -572,7 +582,7 @@ def stepFnO (C : CfgO) (e : End) (k : Cont) (r : Rg) (x : EctxO) (env : Env) (s 
     | .fail => .err (endCls e) (s.offErr [] 0)
     | .rune c rest =>
       if c.1 = 0x2e then .ok { inp := rest, env := env, s := (s.read c).commit [c] }
-      else if C.trig then .err .syntax (s.offErr [] c.2)        -- TriG: BacktrackRunes(r0) first
+      else if C.trig then .err .syntax (s.offErr [] (if C.dbl then c.2 else 0))   -- TriG: BacktrackRunes(r0) first
       else .err .syntax ((s.read c).offErr [] c.2)
   | .subjIRIREF =>
     match a with
@@ -602,7 +612,7 @@ def stepFnO (C : CfgO) (e : End) (k : Cont) (r : Rg) (x : EctxO) (env : Env) (s 
     | .fail => .err (endCls e) (s.offErr [] 0)
     | .rune c rest =>
       match stepPOLO C e x env s c rest with
-      | .ok o => if o.cur.isNone then .err .syntax (s.offErr [] c.2) else .ok o   -- `r0` was handed back before
+      | .ok o => if o.cur.isNone then .err .syntax (s.offErr [] (if C.dbl then c.2 else 0)) else .ok o   -- `r0` was handed back before
       | r => r
   | .objListContinue =>
     match a with
@@ -668,12 +678,12 @@ def stepFnO (C : CfgO) (e : End) (k : Cont) (r : Rg) (x : EctxO) (env : Env) (s 
     else
       .ok { cur := some ⟨x.withGraph env.fresh.1 (span r ((s.read c).range [c])), .wrappedGraph, none⟩, inp := rest,
             env := env.fresh.2, s := (s.read c).commit [c] }
-  | .wrappedGraph => stepWrappedGraphO e x env s a
+  | .wrappedGraph => stepWrappedGraphO C.dbl e x env s a
   | .wrappedGraphEnd =>
     match a with
     | .fail => .err (endCls e) .none
     | .rune c rest =>
-      if c.1 ≠ 0x7d then .err .syntax (s.offErr [] c.2)          -- BacktrackRunes(r0) first
+      if c.1 ≠ 0x7d then .err .syntax (s.offErr [] (if C.dbl then c.2 else 0))   -- BacktrackRunes(r0) first
       else .ok { inp := rest, env := env, s := (s.read c).commit [c] }
   | .triplesBlock =>
     match a with
